@@ -414,6 +414,8 @@ type caseRec struct {
 	ImplStack string   `json:"impl_stack,omitempty"`
 	ImplErr   string   `json:"impl_error,omitempty"`
 	ImplGas   int64    `json:"impl_gas"`
+	// Reuse: the case is a history on one VM object (reuse_test.go).
+	Reuse *reuseRec `json:"reuse,omitempty"`
 }
 
 const specStepLimit = 20_000
@@ -711,6 +713,10 @@ type section struct {
 	run  func(job int, emit func(prog))
 }
 
+// directRun (instead of section.run, by section name): the section evaluates
+// its own cases (histories on one VM object) and returns how many.
+var directRun = map[string]func(job int, st *stats) int64{}
+
 func TestCheck(t *testing.T) {
 	vk.UseT(t)
 	r := vk.Start("C13", "model_checking", 150*time.Second, 24*time.Minute)
@@ -757,6 +763,10 @@ func TestCheck(t *testing.T) {
 		t0 := time.Now()
 		defer func() { st.noteSection("cpu_ms:"+s.name, time.Since(t0).Milliseconds()) }()
 		n := int64(0)
+		if d := directRun[s.name]; d != nil {
+			st.noteSection(s.name, d(jobs[i].j, st))
+			return
+		}
 		s.run(jobs[i].j, func(p prog) {
 			if r.TooMany() {
 				return
@@ -804,16 +814,26 @@ func TestCheck(t *testing.T) {
 		"undetermined_excluded":         int(undetTotal),
 		"undetermined_by_reason":        undet,
 		"undetermined_where_model_reading_differs_from_impl": undetDiffers,
-		"sections":        secNames,
-		"layout_families": st.familyReport(),
-		"budget_families": budgetFamilyReport(),
-		"value_set_sizes": fmt.Sprintf("V=%d (unary adds %d typed values), V'=%d, sequence alphabet=%d over %d operand values, compound alphabet=%d over %d aliasing prefixes", len(valuesV()), len(valuesTyped()), len(valuesTernary()), len(seqAlphabet()), len(seqValues(r)), len(compoundAlphabet()), len(compoundPrefixes())),
+		"sections":                 secNames,
+		"layout_families":          st.familyReport(),
+		"budget_families":          budgetFamilyReport(),
+		"reuse_family":             reuseReport(),
+		"reuse_histories_compared": int(reuseCnt.histories.Load()),
+		"reuse_histories_after_unhandled_exception": int(reuseCnt.exceptionPendingAtEnd.Load()),
+		"reuse_first_programs":                      reuseCnt.nFirst,
+		"reuse_second_programs":                     reuseCnt.nSecond,
+		"reuse_second_programs_from_blocks":         reuseCnt.nBlockSecond,
+		"reuse_ways":                                reuseCnt.nWays,
+		"reuse_distinct_second_outcomes":            reuseCnt.qOutcomes.len(),
+		"reuse_distinct_end_of_first_x_outcome":     reuseCnt.outcomes.len(),
+		"value_set_sizes":                           fmt.Sprintf("V=%d (unary adds %d typed values), V'=%d, sequence alphabet=%d over %d operand values, compound alphabet=%d over %d aliasing prefixes", len(valuesV()), len(valuesTyped()), len(valuesTernary()), len(seqAlphabet()), len(seqValues(r)), len(compoundAlphabet()), len(compoundPrefixes())),
 	}, []string{
 		"the C# JSON vectors (pkg/vm/testdata/neo-vm) are an empty submodule here: the model is bound to the reference by the cited opcode descriptions / .NET BigInteger documentation and by the self-test facts, not by vectors",
 		"latest hardfork behaviour (vm.New() enables all hardforks): SHL/SHR by 0 yield an Integer (Gorgon, docs/node-configuration.md)",
 		"excluded as undetermined (counted in undetermined_by_reason): CALL/CALLA/ENDTRY/ENDFINALLY/handler dispatch exactly to the end of the script (JMP* there is decided: the reference's ExecuteJump rejects position >= Script.Length), programs of the layout families that exceed their model step limit (loops), not-taken jumps / TRY handlers / ENDTRY targets outside the script, ROLL 0 on an otherwise empty stack, HASKEY index >= MaxItemSize, text of engine-raised exception messages, struct comparisons whose outcome depends on a detail of the reference's Struct.Equals the model does not claim (visiting order of the pairs when a mismatch and an exhausted budget compete, one size budget for the whole comparison or one per struct, whether the outermost pair costs a unit, pair limit including or excluding the outermost pair - see lib/specvm/ext_budget.go), ASSERTMSG with a Null or non-ASCII message, unreachable cyclic garbage deciding the MaxStackSize limit",
 		"SYSCALL and CALLT have external effects and are only exercised on a bare VM (both sides fault)",
 		"gas is only compared between two runs of the implementation, the model has no notion of gas",
+		"family reuse: the reference for a script executed on a VM object that executed other scripts before is the same script on a fresh VM loaded the same way (and the model); the ways are those of the node (interop.Context.ReuseVM = Reset + initVM, then LoadScriptWithFlags / LoadNEFMethod / LoadScriptWithHash) plus Reset + LoadWithFlags and a reload by LoadWithFlags alone, whose doc comment promises to clear all stacks and state",
 	})
 }
 
@@ -835,6 +855,11 @@ func replay(r *vk.Run, st *stats) {
 	if err := r.ReadReplay(&c); err != nil {
 		fmt.Println("cannot read replay:", err)
 		os.Exit(3)
+	}
+	if c.Reuse != nil {
+		replayReuse(r, st, c)
+		r.Finish(map[string]any{"states": 1, "transitions": int(st.transitions.Load()) + 1, "traces_validated_against_impl": 5}, nil)
+		return
 	}
 	script, err := hex.DecodeString(c.Script)
 	if err != nil {
